@@ -306,6 +306,9 @@ def handleWaitingForAck (env : Env) (pkt : Option Pdu) : SM Unit := do
   if ← handleRetransmission pkt then pure ()
   else
     match pkt with
+    | some (.fin ..) =>
+      -- the receiver has seen the EOF (its ACK was lost): the Finished PDU is handled in the next step
+      modify fun s => { s with step := .WAITING_FOR_FINISHED }
     | some (.ack _ ofDir _ _) =>
       if ofDir = dtEof then modify fun s => { s with step := .WAITING_FOR_FINISHED }
     | some (.fd ..) => throw .attributeError     -- `to_ack_pdu` of a File Data holder; never admitted
@@ -354,7 +357,8 @@ def sendingFileDataFsm (pkt : Option Pdu) : SM Bool := do
         modP fun p => { p with condCodeEof := some ccNoError }
         modify fun s => { s with step := .SENDING_EOF }
       else if p.metadataOnly then
-        if p.closure then modify fun s => { s with step := .WAITING_FOR_FINISHED }
+        if p.closure || (← transmissionMode) = some .ack then
+          modify fun s => { s with step := .WAITING_FOR_FINISHED }
         else modify fun s => { s with step := .NOTICE_OF_COMPLETION }
       pure false
 
@@ -488,7 +492,7 @@ def checkInsertedPacket (env : Env) (pdu : Pdu) : SM Unit := do
     let k := pdu.kind
     if s.p.conf.mode = .unack && (k = .ka || k = .nak) then throw .pduIgnoredForSource
     if k ≠ .nak then
-      if s.step = .WAITING_FOR_EOF_ACK && !(k = .ackeof || k = .ackfin) then
+      if s.step = .WAITING_FOR_EOF_ACK && !(k = .ackeof || k = .ackfin || k = .fin) then
         throw .pduIgnoredForSource
       if s.step = .WAITING_FOR_FINISHED && k ≠ .fin then throw .pduIgnoredForSource
 
